@@ -15,6 +15,21 @@ DEFAULTING = ("unwrap_or", "unwrap_or_default", "unwrap_or_else", "Result::<T, E
               "Option::<T>::unwrap_or", "Result::<T, E>::unwrap", "Result::<T, E>::expect")
 
 
+BUILDER_STEPS = ("reqwest::RequestBuilder::body", "reqwest::RequestBuilder::basic_auth", "reqwest::RequestBuilder::header", "reqwest::RequestBuilder::headers",
+                 "reqwest::RequestBuilder::timeout", "reqwest::RequestBuilder::bearer_auth", "reqwest::RequestBuilder::version")
+BUILDER_IDENT = H.FLOW_IDENTITY + BUILDER_STEPS
+
+
+def _steps_of(B, operand):
+    """blocks of the builder-method calls the value went through on its way from `post` (on some path)"""
+    out = set()
+    for o in M.trace(B, operand, BUILDER_IDENT):
+        for st in o.steps:
+            if st[0] == "call" and st[1].endswith(tuple(x.rsplit("::", 1)[-1] for x in BUILDER_STEPS)) and "RequestBuilder" in st[1]:
+                out.add(st[2])
+    return out
+
+
 def sp(B, bb):
     return B.term(bb).get("sp", "?")
 
@@ -107,8 +122,10 @@ def run(ck, F):
         if ok:
             ser = src[0][2].term
             ok = upvar_origin(ser["args"][0], "req")
-        recv = H.origin_calls(B, t["args"][0])
-        ok_recv = post is not None and len(recv) == 1 and recv[0][0] == post[0]
+        # the builder the body is set on is the one made by post (credentials may have been added to it before: the order of the
+        # builder steps does not matter for the request)
+        recv = H.origin_calls(B, t["args"][0], BUILDER_IDENT)
+        ok_recv = post is not None and bool(recv) and all(r[0] == post[0] for r in recv)
         if ok and ok_recv:
             ck.ok("R1", "body-provenance", sp(B, bb), "request body = yaserde::ser::to_string(&req) on the post builder", fn=short)
         else:
@@ -119,10 +136,10 @@ def run(ck, F):
     # the builder handed to send originates from the body()-builder, optionally through basic_auth
     auths = B.calls_to("reqwest::RequestBuilder::basic_auth")
     if send and len(bodies) == 1:
-        allowed = {bodies[0][0]} | {bb for bb, _ in auths}
-        src = H.origin_calls(B, send[1]["args"][0])
-        bad = [s for s in src if s[0] not in allowed]
-        if bad or not src:
+        src = H.origin_calls(B, send[1]["args"][0], BUILDER_IDENT)
+        bad = [s for s in src if post is None or s[0] != post[0]]
+        through_body = bodies[0][0] in _steps_of(B, send[1]["args"][0])
+        if bad or not src or not through_body:
             ck.violation("R1", "send-builder", sp(B, send[0]), "the builder that is sent does not come from post(url).body(..)[.basic_auth(..)]: "
                          + ", ".join(str(s[1]) for s in bad), fn=short)
         else:
@@ -185,8 +202,7 @@ def run(ck, F):
                 ck.violation("R2", "auth-operands", sp(B, abb),
                              "basic_auth does not receive (credentials.0, Some(credentials.1)) in that order", fn=short)
             # the authed builder must be the one reaching send on that arm
-            src = H.origin_calls(B, send[1]["args"][0])
-            if abb not in [s[0] for s in src]:
+            if abb not in _steps_of(B, send[1]["args"][0]):
                 ok = False
                 ck.violation("R2", "auth-dropped", sp(B, abb), "the builder returned by basic_auth does not reach send", fn=short)
             if ok:
